@@ -175,15 +175,15 @@ def run(ctx):
         if case is not None:
             doc_ok = case.doc_typed
             guarded = rule not in QUIRK_RULES
-            coq_full.append((an["coq"], "(%s, %s, %s)" % (ev, "true" if doc_ok else "false", "true" if guarded else "false"),
+            coq_full.append((an["coq"], "(CExpect %s %s %s)" % (ev, "true" if doc_ok else "false", "true" if guarded else "false"),
                              dict(label=label, text=text, rule=rule, an=an)))
         else:
-            coq_plain.append((an["coq"], ev, dict(label=label, text=text, rule=None, an=an)))
+            coq_plain.append((an["coq"], "(CExpectV %s)" % ev, dict(label=label, text=text, rule=None, an=an)))
 
     in_ty = "(list ty * list ty * list item)"
-    r1 = fw.CoqCases(ctx, "gen", hdr, "(run_module_full T_run)", "full_agrees", in_ty, "(verdict * bool * bool)", shard=40)
+    r1 = fw.CoqCases(ctx, "gen", hdr, "(run_case T_run)", "cout_agrees", in_ty, "cout", shard=40)
     bad1 = r1.run(coq_full) if coq_full else []
-    r2 = fw.CoqCases(ctx, "corpus", hdr, "(run_module T_run)", "verdict_agrees", in_ty, "verdict", shard=10)
+    r2 = fw.CoqCases(ctx, "corpus", hdr, "(run_case T_run)", "cout_agrees", in_ty, "cout", shard=10)
     bad2 = r2.run(coq_plain) if coq_plain else []
     ctx.obligation("correspondence: %d generated modules: model verdict/site = compiler, doc_table verdict = catalogue, guard = catalogue"
                    % len(coq_full), not bad1)
